@@ -29,7 +29,7 @@ from .. import jweworld as JW
 
 ID = "C16"
 LEVEL = "exploration"
-RUNS = {"quick": 12000, "thorough": 400000}
+RUNS = {"quick": 6000, "thorough": 400000}
 BUDGET = {"quick": 75, "thorough": 1800}
 RULE = ("one run = one world of well-formed keys (oct, RSA, EC, Ed25519, X25519 as key / key set / callable) and registries "
         "(default, all algorithms, non-strict, any-recipient) receiving 60-150 seeded hostile inputs of the four source classes "
@@ -152,8 +152,6 @@ def judge(entry, value, keyarg, reg, sender=None, detached=None):
         call(entry, value, keyarg, reg, sender, detached)
     except (JoseError, ValueError):
         return None
-    except RecursionError:
-        return None
     except Exception as e:  # the finding
         site = culprit(e)
         return ("%s:%s:%s" % (entry, type(e).__name__, site), "%s escaped from %s at %s: %s" % (type(e).__name__, entry, site, str(e)[:100]))
@@ -185,8 +183,26 @@ def sign_with(w: World, rng: Rng, header, payload: bytes, alg: str, kname: str, 
         return rjws.make_compact(text, payload, alg, key)
 
 
+JWK_EXTRA_MEMBERS = ["use", "key_ops", "alg", "kid", "x5u", "x5c", "x5t", "x5t#S256", "ext", "d", "kty", "crv", "x", "y"]
+
+
+def weird_epk(rng: Rng):
+    """a *valid* public key of a usable curve whose optional members carry arbitrary JSON values"""
+    crv = rng.pick(["P-256", "P-256", "X25519", "P-384"])
+    base = K.make_ec(rng.sub("epk"), crv) if crv in rk.EC_CURVES else K.make_okp(rng.sub("epk"), crv)
+    j = rk.to_jwk(base.public())
+    for _ in range(rng.randrange(1, 3)):
+        j[rng.pick(JWK_EXTRA_MEMBERS)] = copy.deepcopy(rng.pick(VALUES + [["sign"], ["deriveKey", ["x"]], {"sig": True}, "sig", "enc", [["deriveKey"]]]))
+    return j
+
+
 def mutate_member(rng: Rng, header: dict):
-    m = rng.pick(MEMBERS)
+    m = rng.pick(MEMBERS + ["epk"])
+    if m == "epk" and rng.chance(0.5):
+        h = copy.deepcopy(header)
+        v = weird_epk(rng)
+        h[m] = v
+        return h, m, v
     if m == "p2c":
         v = rng.pick(P2C_VALUES)
     elif m in ("epk", "jwk") and rng.chance(0.7):
@@ -206,7 +222,8 @@ def mutate_member(rng: Rng, header: dict):
 def gen_jws_input(w: World, rng: Rng):
     alg, kname = rng.pick(JWS_BASE)
     form = rng.pick(["compact", "compact", "flat", "general"])
-    payload = rng.pick([b"hello", b"{\"sub\":\"a\"}", b"", b"[1,2]", b"\xff\xfe", b"not json", b"\"str\"", b"{\"exp\":\"x\"}", b"a.b"])
+    payload = rng.pick([b"hello", b"{\"sub\":\"a\"}", b"", b"[1,2]", b"\xff\xfe", b"not json", b"\"str\"", b"{\"exp\":\"x\"}", b"a.b",
+                        b"[" * 3000 + b"]" * 3000, b'{"a":' * 2000 + b"1" + b"}" * 2000])
     header = {"alg": alg, "kid": kname}
     if rng.chance(0.2):
         header.update({"b64": rng.pick([False, True]), "crit": ["b64"]})
@@ -214,8 +231,14 @@ def gen_jws_input(w: World, rng: Rng):
     unprot = None
     note = src
     if src == "header-type":
-        v = rng.pick(VALUES + ["\xff", "{", "[", "nul"])
-        raw = v.encode("latin-1") if v in ("\xff", "{", "[", "nul") else rjws.compact_json(v)
+        v = rng.pick(VALUES + ["\xff", "{", "[", "nul", "<deep>", "<deep>"])
+        if v == "<deep>":
+            depth = rng.pick([1500, 5000, 100000])
+            raw = b'{"alg":"%s","kid":"%s","x5c":' % (alg.encode(), kname.encode()) + b"[" * depth + b"]" * depth + b"}"
+            if rng.chance(0.3):
+                raw = b"[" * depth + b"]" * depth
+        else:
+            raw = v.encode("latin-1") if v in ("\xff", "{", "[", "nul") else rjws.compact_json(v)
         tok = sign_with(w, rng, header, payload, alg, kname, form, None, raw_header=raw)
         note = "protected header := %r" % (v,)
     elif src == "member":
@@ -255,7 +278,7 @@ def gen_jwe_input(w: World, rng: Rng):
             prot["kid"] = kname
     else:
         rh = {"alg": alg, "kid": kname}
-    pt = rng.pick([b"secret", b"{\"sub\":\"a\"}", b"", b"\xff\xfe", b"[1]"])
+    pt = rng.pick([b"secret", b"{\"sub\":\"a\"}", b"", b"\xff\xfe", b"[1]", b"[" * 3000 + b"]" * 3000])
     src = rng.pick(["wire", "header-type", "member", "member", "member", "inner", "inner", "json-shape"])
     note = src
     kw = {}
